@@ -127,3 +127,65 @@ func c05ObjectRestExclusion(p *Prog) *RuleResult {
 	r.Floor(1)
 	return r
 }
+
+// C05/R3 synthesised `this` in lowered super accesses.
+//
+// When `super.x` cannot be kept (async functions, static fields and other lowered contexts) the
+// parser rewrites it to a runtime helper call that takes the receiver explicitly:
+// __superGet(Class.prototype, this, 'x'), …call(this, …). The `this` it writes is synthesised — it
+// does not come from the source — so the two pieces of bookkeeping that visiting a real `this`
+// performs have to be done by the helper itself, and the four helper functions have to agree:
+//   (a) inside a lowered static field initialiser `this` must be replaced by the class reference
+//       (fnOnlyDataVisit.shouldReplaceThisWithInnerClassNameRef), otherwise the emitted `this` is
+//       the `this` of the surrounding code, not the class;
+//   (b) the enclosing function must be told that it uses `this` (fnOnlyDataVisit.hasThisUsage),
+//       otherwise a lowered async arrow forwards `null` as its receiver (__async(null, …)) and the
+//       synthesised `this` inside the generated generator is null.
+// Rule (sibling agreement): every function of js_parser whose name mentions "SuperProperty" and that
+// builds an expression from js_ast.EThisShared reads flag (a) and sets flag (b).
+func c05SynthesisedThis(p *Prog) *RuleResult {
+	r := NewRule("C05/R3 synthesised-this", "every helper that lowers a super property access and writes a synthesised `this` replaces it by the class reference inside lowered static field initialisers and marks the enclosing function as using `this`")
+	n := 0
+	for _, fn := range p.ModuleFuncs() {
+		if pkgPathOf(fn) != modPath+"/internal/js_parser" || fn.Parent() != nil || !strings.Contains(fn.Name(), "SuperProperty") {
+			continue
+		}
+		usesThis, readsReplace, setsUsage := false, false, false
+		var pos token.Pos
+		eachInstr(fn, func(b *ssa.BasicBlock, in ssa.Instruction) {
+			switch x := in.(type) {
+			case *ssa.UnOp:
+				if g, ok := x.X.(*ssa.Global); ok && g.Name() == "EThisShared" {
+					usesThis = true
+					pos = x.Pos()
+				}
+				if _, name, ok := loadedField(x); ok && name == "shouldReplaceThisWithInnerClassNameRef" {
+					readsReplace = true
+				}
+			case *ssa.Store:
+				if fa, ok := x.Addr.(*ssa.FieldAddr); ok && fieldAddrName(fa) == "hasThisUsage" && isConstBool(x.Val, true) {
+					setsUsage = true
+				}
+			}
+		})
+		if !usesThis {
+			continue
+		}
+		n++
+		name := FuncName(fn)
+		r.Instances++
+		if readsReplace {
+			r.OK(name+" static-field receiver", true, "consults shouldReplaceThisWithInnerClassNameRef")
+		} else {
+			r.Fail(name+" static-field receiver", p.Pos(pos), "this helper writes a synthesised `this` without consulting shouldReplaceThisWithInnerClassNameRef (its siblings do): in a lowered static field initialiser `static x = super.m()` becomes __superGet(C, C, 'm').call(this) with the `this` of the surrounding module/function instead of the class")
+		}
+		r.Instances++
+		if setsUsage {
+			r.OK(name+" this-usage", true, "sets hasThisUsage")
+		} else {
+			r.Fail(name+" this-usage", p.Pos(pos), "this helper writes a synthesised `this` into the enclosing function without setting hasThisUsage: a lowered async arrow then forwards null as its receiver (`async () => super.foo()` becomes __async(null, null, function*(){ __superGet(C.prototype, this, 'foo').call(this) }) and `this` is null at run time)")
+		}
+	}
+	r.Anchor("super-lowering helpers that synthesise `this`", n >= 3)
+	return r
+}
